@@ -140,20 +140,23 @@ func H_TermAlgebra() {
 	}
 }
 
-// H_QueryAlgebra: a query is the AND of its terms, queries are OR-ed, empty cases are true.
+// H_QueryAlgebra: a query is the AND of its terms, queries are OR-ed, empty cases are true.  Term
+// semantics are H_TermAlgebra's subject; here terms are representative (existence, equality, lexical
+// comparison; one value; symbolic key, value and inversion) over at most one symbolic label.
 func H_QueryAlgebra() {
-	n := verif.Choose("nlabels", 3)
+	n := verif.Choose("nlabels", 2)
 	labels, _, _ := buildLabels(n, false)
 	nq := verif.Choose("nqueries", 3)
 	var qs resource.LabelQueries
 	want := nq == 0
+	qops := []resource.LabelOp{resource.LabelOpExists, resource.LabelOpEqual, resource.LabelOpLT}
 	for q := 0; q < nq; q++ {
 		nt := verif.Choose("nterms", 3)
 		var query resource.LabelQuery
 		all := true
 		for t := 0; t < nt; t++ {
-			term, _ := mkTerm(false)
-			term.Op = ops[verif.Choose("op", 5)]
+			term := resource.LabelTerm{Key: verif.Atom("termKey"), Invert: verif.Bool("invert"), Value: []string{verif.Atom("termValue")}}
+			term.Op = qops[verif.Choose("op", len(qops))]
 			query.Terms = append(query.Terms, term)
 			if !labels.Matches(term) {
 				all = false
